@@ -454,6 +454,7 @@ func Yield(name string) {
 
 func (s *Sched) park(kind, site string, intern bool) {
 	if s.free.Load() {
+		Heartbeat.Add(1) // free-running teardown of a large world is progress too
 		return
 	}
 	gid := goid()
